@@ -285,6 +285,18 @@ func sliceString(s DynSlice, k Kind) string {
 	return sb.String()
 }
 
+// spareCheck reports a call that touched the caller's backing array beyond the slice it was given
+func (w *World) spareCheck(op string, vid int, sls ...DynSlice) {
+	for _, sl := range sls {
+		if sl != nil && !sl.SpareIntact() {
+			fmt.Fprintf(w.out, "callerspare %s %d\n", op, vid)
+			w.st.lines++
+			w.st.branch("caller-spare-touched")
+			return
+		}
+	}
+}
+
 func (w *World) Write(dst int, sk Kind, vals []uint64) {
 	d := w.views[dst]
 	src := NewSlice(sk, vals, false)
@@ -299,6 +311,7 @@ func (w *World) Write(dst int, sk Kind, vals []uint64) {
 	w.st.op("write")
 	w.st.pair("write", sk, d.Kind())
 	w.Dump()
+	w.spareCheck("write", dst, src)
 }
 
 func (w *World) Read(src int, dk Kind, init []uint64) {
@@ -314,6 +327,7 @@ func (w *World) Read(src int, dk Kind, init []uint64) {
 	w.st.op("read")
 	w.st.pair("read", s.Kind(), dk)
 	w.Dump()
+	w.spareCheck("read", src, dst)
 }
 
 // cols[i] == nil means a nil inner slice
@@ -364,6 +378,7 @@ func (w *World) WriteStriped(dst int, sk Kind, cols [][]uint64) {
 	w.st.op("wstriped")
 	w.st.pair("wstriped", sk, d.Kind())
 	w.Dump()
+	w.spareCheck("wstriped", dst, src...)
 }
 
 func (w *World) ReadStriped(src int, dk Kind, cols [][]uint64) {
@@ -379,6 +394,7 @@ func (w *World) ReadStriped(src int, dk Kind, cols [][]uint64) {
 	w.st.op("rstriped")
 	w.st.pair("rstriped", s.Kind(), dk)
 	w.Dump()
+	w.spareCheck("rstriped", src, dst...)
 }
 
 func (w *World) Conv(src, dst int) {
